@@ -7,7 +7,7 @@ from ..core import Fail
 PID = "C03"
 RULE = ("per seed a pool of shapes built to contain every pattern (nested, hole-in-hole, unbounded in unbounded, "
         "component-wise, crossing, disjoint, L-shapes with squares in the notch, Empty, Whole); all ordered pairs in "
-        "general position (or nested without contact), curved contents whose control polygon leaves the container while the curve stays inside (parabola cap in a rectangle, few-arc circle in a tight square; closed-form truth), plus simple shapes whose boundaries touch without crossing (shared vertex, vertex on an edge, shared part of an edge; bounded/unbounded): `B in A`, A.contains_shape(B), the corollaries A in A, "
+        "general position (or nested without contact), unbounded Connected and Disjoint containers with bounded contents, curved contents whose control polygon leaves the container while the curve stays inside (parabola cap in a rectangle, few-arc circle in a tight square; closed-form truth), plus simple shapes whose boundaries touch without crossing (shared vertex, vertex on an edge, shared part of an edge; bounded/unbounded): `B in A`, A.contains_shape(B), the corollaries A in A, "
         "B in A => A|B == A and A&B == B; contains_jordan with both flags for curves against shapes; exact subset "
         "oracle by slab sampling; non-trivial = bounding boxes overlap and neither is Empty/Whole; distinct = SHA-1")
 PROOF_STATUS = ("Props/C03.v: Empty/Whole rows, composition rules for Connected/Disjoint containers and contents; curve-in-shape "
@@ -41,6 +41,19 @@ def _pool(rng):
         pool.append(u)
         pts = [p for p in O.slab_samples(O.shape_jordans(u)) if O.region(u, p) == "in"]
         for c in rng.sample(pts, min(2, len(pts))):
+            d = F(1, 32)
+            pool.append(("S", G.verts_to_jordan(G.ccw([(c[0] + d, c[1]), (c[0], c[1] + d), (c[0] - d, c[1]), (c[0], c[1] - d)]))))
+    # Disjoint containers with an UNBOUNDED component (the complement of a ring: its hole plus the outside), bounded
+    # contents in either component
+    for _ in range(2):
+        h = G.holed_shape(rng, R=rng.choice([8, 12]), nholes=1)
+        if h[0] != "C":
+            continue
+        comp = ("D", [("S", U.reverse_jordan(h[1][1])), ("S", U.reverse_jordan(h[1][0]))])
+        pool.append(comp)
+        pts = [p for p in O.slab_samples(O.shape_jordans(comp)) if O.region(comp, p) == "in"]
+        far = [p for p in pts if O.region(("S", U.reverse_jordan(h[1][0])), p) == "in"]
+        for c in rng.sample(far, min(2, len(far))) + rng.sample(pts, min(1, len(pts))):
             d = F(1, 32)
             pool.append(("S", G.verts_to_jordan(G.ccw([(c[0] + d, c[1]), (c[0], c[1] + d), (c[0] - d, c[1]), (c[0], c[1] - d)]))))
     L = G.verts_to_jordan([(F(0), F(0)), (F(4), F(0)), (F(4), F(4)), (F(2), F(4)), (F(2), F(2)), (F(0), F(2))])
@@ -119,7 +132,10 @@ def cases(ctx):
         pairs = [(a, b) for a in pool for b in pool]
         rng.shuffle(pairs)
         forced = [(a, b) for a in pool for b in pool if a[0] == "C" and b[0] == "S" and O.moment_shape(a, 0, 0) < 0 < O.moment_shape(b, 0, 0)]
-        for a, b in forced[:8] + pairs[: ctx.n(60, 400)]:
+        forced2 = [(a, b) for a in pool for b in pool if a[0] == "D" and b[0] == "S" and O.moment_shape(b, 0, 0) > 0
+                   and any(O.moment_shape(c, 0, 0) < 0 for c in a[1])]
+        rng.shuffle(forced2)
+        for a, b in forced[:8] + forced2[:10] + pairs[: ctx.n(60, 400)]:
             if a is b or _compatible(a, b):
                 yield {"a": a, "b": b, "same": a is b}
         for s in pool[2:8]:
